@@ -130,10 +130,16 @@ structure Flags where
   /-- new: a time trigger without future instant dispatches `none` whatever else the manager holds (repaired by
   3b0ef9c: only when it is the ONLY trigger decorator of the manager – no other trigger, no timeout decorator) -/
   noneEager : Bool
+  /-- legacy: the unsubscribe block comes after the wait loop and a filter parse error removes only the state
+  subscription (repaired by a3cf272: registration of event/mqtt/webhook and the whole loop inside `try`, the four
+  `notify_del` calls in its `finally`) -/
+  legacyNoFinally : Bool
 deriving DecidableEq, Repr
 
-def Flags.current : Flags := { reanchor := false, timeout0Absent := false, cancelNoStop := false, noneEager := false }
-def Flags.preFix : Flags := { reanchor := true, timeout0Absent := true, cancelNoStop := true, noneEager := true }
+def Flags.current : Flags := { reanchor := false, timeout0Absent := false, cancelNoStop := false, noneEager := false,
+                                 legacyNoFinally := false }
+def Flags.preFix : Flags := { reanchor := true, timeout0Absent := true, cancelNoStop := true, noneEager := true,
+                                legacyNoFinally := true }
 
 /-! ## shared pieces -/
 
@@ -268,26 +274,39 @@ def stateStage (cfg : Cfg) (q : Nat) (tb : Tables) (v0 : Nat) (call : Nat) : Exc
 /-- `if len(state_trig_ident) > 0: State.notify_del(...)` – the ONLY clean-up on a parse error -/
 def stDelIf (cfg : Cfg) (q : Nat) (tb : Tables) : Tables := if cfg.state.isSome then tb.stDel q else tb
 
-def eventStage (cfg : Cfg) (q : Nat) (tb : Tables) (call : Nat) : Except (Exit × Tables) Tables :=
-  match cfg.event with
-  | Option.none => .ok tb
-  | some e => if !e.parseOK then .error (.exc call .parse, stDelIf cfg q tb) else .ok (tb.evAdd q)
-
-def mqttStage (cfg : Cfg) (q : Nat) (tb : Tables) (call : Nat) : Except (Exit × Tables) Tables :=
-  match cfg.mqtt with
-  | Option.none => .ok tb
-  | some m => if !m.parseOK then .error (.exc call .parse, stDelIf cfg q tb) else .ok (tb.mqAdd q)
-
-def setup (cfg : Cfg) (q : Nat) (tb : Tables) (v0 : Nat) (call : Nat) : Except (Exit × Tables) Tables := do
-  let t1 ← stateStage cfg q tb v0 call
-  let t2 ← eventStage cfg q t1 call
-  mqttStage cfg q t2 call
-
-/-- the unsubscribe block after the loop -/
+/-- the unsubscribe block: pre-fix after the loop, repaired in the `finally` of the `try` that starts right after
+the state subscription (every `notify_del` is a no-op when the queue is not subscribed) -/
 def cleanup (cfg : Cfg) (q : Nat) (tb : Tables) : Tables :=
   let t1 := stDelIf cfg q tb
   let t2 := if cfg.event.isSome then t1.evDel q else t1
   if cfg.mqtt.isSome then t2.mqDel q else t2
+
+/-- tables after a filter of event/mqtt/webhook did not parse: the `except:` branch removes the state subscription;
+repaired: the enclosing `finally` then removes whatever else was registered before -/
+def onParseError (fl : Flags) (cfg : Cfg) (q : Nat) (tb : Tables) : Tables :=
+  if fl.legacyNoFinally then stDelIf cfg q tb else cleanup cfg q (stDelIf cfg q tb)
+
+def eventStage (fl : Flags) (cfg : Cfg) (q : Nat) (tb : Tables) (call : Nat) : Except (Exit × Tables) Tables :=
+  match cfg.event with
+  | Option.none => .ok tb
+  | some e => if !e.parseOK then .error (.exc call .parse, onParseError fl cfg q tb) else .ok (tb.evAdd q)
+
+def mqttStage (fl : Flags) (cfg : Cfg) (q : Nat) (tb : Tables) (call : Nat) : Except (Exit × Tables) Tables :=
+  match cfg.mqtt with
+  | Option.none => .ok tb
+  | some m => if !m.parseOK then .error (.exc call .parse, onParseError fl cfg q tb) else .ok (tb.mqAdd q)
+
+def setup (fl : Flags) (cfg : Cfg) (q : Nat) (tb : Tables) (v0 : Nat) (call : Nat) : Except (Exit × Tables) Tables := do
+  let t1 ← stateStage cfg q tb v0 call
+  let t2 ← eventStage fl cfg q t1 call
+  mqttStage fl cfg q t2 call
+
+/-- do the subscriptions stay when the wait ends this way?  Still waiting: yes.  Cancelled waiter: pre-fix yes (the
+unsubscribe block is skipped), repaired no (`finally`).  Return / exception: never. -/
+def keeps (fl : Flags) : Exit → Bool
+  | .waiting => true
+  | .cancelled _ => fl.legacyNoFinally
+  | _ => false
 
 /-- one call of `task.wait_until`: `q` = its fresh queue, `tb` = the tables before, `v0` = current value of the
 watched variable, `call` = instant of the call, `hist` = what happens afterwards -/
@@ -297,11 +316,11 @@ def run (fl : Flags) (cfg : Cfg) (q : Nat) (tb : Tables) (v0 : Nat) (call : Nat)
     | some T => (sleepExit call T hist, tb)
     | Option.none => (.ret call .none, tb)
   else
-    match setup cfg q tb v0 call with
+    match setup fl cfg q tb v0 call with
     | .error r => r
     | .ok tb1 =>
       let e := loop fl cfg call hist call
-      (e, if e.leavesRunning then tb1 else cleanup cfg q tb1)
+      (e, if keeps fl e then tb1 else cleanup cfg q tb1)
 
 end Legacy
 
